@@ -1,5 +1,9 @@
 import Snel.Model.ShardProto
 import Snel.Model.Compact
+import Snel.Model.PlanProto
 open Snel
 
-def main : IO Unit := Proto.serve (ShardProto.answerWith Shard.compactRound)
+def main : IO Unit := Proto.serve fun line =>
+  match PlanProto.answer line with
+  | some a => a
+  | none => ShardProto.answerWith Shard.compactRound line
